@@ -22,6 +22,16 @@ SFNS = ["contains", "startsWith", "endsWith"]
 ALPHA = [97, 98, 99, 233, 10, 0x1F600]          # a b c é \n 😀
 FIELDS = ["a", "b", "c", "k", "ab"]
 BAD_PATTERNS = ["(", ")", "[a", "*a", "a**", "a|*", "[b-a]", "a+*", "(?P<n", "\\8", "a{2,1}", "[]"]
+# round 2: doubles (as text; "nan"/"inf"/"-inf" have no literal and are rendered as a quotient, or come from bindings)
+DBL_LITS = ["0.0", "-0.0", "1.0", "1.5", "2.0", "-2.5", "0.1", "3.0", "1e300"]
+DBL_SPECIAL = ["nan", "inf", "-inf"]
+
+
+def dbl_bits(x: float) -> str:
+    import struct
+    if x != x:
+        return "nan"
+    return str(struct.unpack("<Q", struct.pack("<d", float(x)))[0])
 
 # ----------------------------------------------------------------------------------------------
 # rendering to CEL text
@@ -112,12 +122,12 @@ def re_tokens(r: Any) -> str:
     return f"{k} {re_tokens(r[1])}"
 
 
-MEMBER_KINDS = {"u", "b", "s", "v", "L", "M", "idx", "sel", "has", "size", "msize", "matches"} | set(SFNS) | set(MACROS)
+MEMBER_KINDS = {"u", "b", "s", "n", "v", "L", "M", "idx", "sel", "has", "size", "msize", "matches"} | set(SFNS) | set(MACROS)
 
 
 def atom(e: Any) -> str:
     """operand position: member-level forms need no parentheses"""
-    if e[0] in MEMBER_KINDS or (e[0] == "i" and e[1] >= 0):
+    if e[0] in MEMBER_KINDS or (e[0] == "i" and e[1] >= 0) or e[0] == "d":
         return to_cel(e)
     t = to_cel(e)
     return t if t.startswith("(") and t.endswith(")") and e[0] in ("i", "neg", "not", "&&", "||", "?:", "++") + tuple(BINOPS) else f"({t})"
@@ -133,6 +143,10 @@ def to_cel(e: Any) -> str:
         return "true" if e[1] else "false"
     if k == "s":
         return cel_str(e[1])
+    if k == "n":
+        return "null"
+    if k == "d":
+        return dbl_cel(e[1])
     if k == "v":
         return f"x{e[1]}"
     if k == "L":
@@ -169,6 +183,21 @@ def to_cel(e: Any) -> str:
     raise ValueError(k)
 
 
+def dbl_cel(t: str) -> str:
+    """CEL text of a double given as Python float text; the values without a literal are quotients"""
+    if t == "nan":
+        return "(0.0 / 0.0)"
+    if t == "inf":
+        return "(1.0 / 0.0)"
+    if t == "-inf":
+        return "((-1.0) / 0.0)"
+    x = float(t)
+    r = repr(abs(x))
+    if "e" in r and "." not in r:            # 1e+300 -> 1.0e+300
+        r = r.replace("e", ".0e")
+    return f"(-{r})" if (x < 0 or t.startswith("-")) else r
+
+
 def stok(cps: List[int]) -> str:
     return "s" + ".".join(str(c) for c in cps)
 
@@ -183,6 +212,10 @@ def to_model(e: Any) -> str:
         return "bT" if e[1] else "bF"
     if k == "s":
         return stok(e[1])
+    if k == "n":
+        return "nul"
+    if k == "d":
+        return "d" + dbl_bits(float(e[1]))
     if k == "v":
         return f"v{e[1]}"
     if k == "L":
@@ -215,7 +248,7 @@ def walk(e: Any):
         yield n, anc
         k = n[0]
         a2 = anc + [k]
-        if k in ("i", "u", "b", "s", "v"):
+        if k in ("i", "u", "b", "s", "v", "d", "n"):
             return
         if k == "L":
             for x in n[1]:
@@ -266,6 +299,10 @@ def canon(v: Any) -> str:
     from celpy.evaluation import CELEvalError
     if isinstance(v, CELEvalError):
         return "E"
+    if v is None:
+        return "n"
+    if isinstance(v, float):                     # DoubleType
+        return "d" + dbl_bits(v)
     if isinstance(v, (celtypes.BoolType, bool)):
         return "bT" if v else "bF"
     if isinstance(v, celtypes.UintType):
@@ -281,7 +318,72 @@ def canon(v: Any) -> str:
     return f"?{type(v).__name__}"
 
 
-def run_cel(src: str, runner: str) -> str:
+def build_value(t: Any, memo: Dict[str, Any]) -> Any:
+    """a literal tree as the CEL value an application would put into the activation; every NaN of one
+    activation is the SAME object (a value that reaches both sides of a comparison unchanged)"""
+    from celpy import celtypes
+    k = t[0]
+    if k == "i":
+        return celtypes.IntType(t[1])
+    if k == "u":
+        return celtypes.UintType(t[1])
+    if k == "b":
+        return celtypes.BoolType(t[1])
+    if k == "s":
+        return celtypes.StringType("".join(map(chr, t[1])))
+    if k == "n":
+        return None
+    if k == "d":
+        if t[1] == "nan":
+            if "nan" not in memo:
+                memo["nan"] = celtypes.DoubleType("nan")
+            return memo["nan"]
+        return celtypes.DoubleType(float(t[1]))
+    if k == "L":
+        return celtypes.ListType([build_value(x, memo) for x in t[1]])
+    if k == "M":
+        return celtypes.MapType({build_value(a, memo): build_value(b, memo) for a, b in t[1]})
+    raise ValueError(k)
+
+
+def json_native(t: Any) -> Any:
+    """the literal tree as parsed JSON (string keys only, no uint, finite doubles); raises ValueError otherwise"""
+    k = t[0]
+    if k in ("i", "b"):
+        return t[1]
+    if k == "s":
+        return "".join(map(chr, t[1]))
+    if k == "n":
+        return None
+    if k == "d" and t[1] not in DBL_SPECIAL:
+        return float(t[1])
+    if k == "L":
+        return [json_native(x) for x in t[1]]
+    if k == "M" and all(a[0] == "s" for a, _ in t[1]):
+        return {json_native(a): json_native(b) for a, b in t[1]}
+    raise ValueError(k)
+
+
+def activation_of(bind: Optional[List[Any]], as_json: bool = False) -> Dict[str, Any]:
+    memo: Dict[str, Any] = {}
+    act = {}
+    for x, t in bind or []:
+        v = None
+        done = False
+        if as_json:
+            import celpy
+            try:
+                v = celpy.json_to_cel(_json.loads(_json.dumps(json_native(t))))
+                done = True
+            except ValueError:
+                pass
+        if not done:
+            v = build_value(t, memo)
+        act[f"x{x}"] = v
+    return act
+
+
+def run_cel(src: str, runner: str, bind: Optional[List[Any]] = None, as_json: bool = False) -> str:
     import celpy
     from celpy.evaluation import CELEvalError
     try:
@@ -291,7 +393,7 @@ def run_cel(src: str, runner: str) -> str:
         except celpy.CELParseError:
             return "parse-error"
         prog = env.program(ast)
-        v = prog.evaluate({})
+        v = prog.evaluate(activation_of(bind, as_json))
         if isinstance(v, CELEvalError):
             return "err"
         return canon(v)
@@ -329,6 +431,10 @@ def ref_show(v) -> str:
         return "bT" if v[1] else "bF"
     if k == "s":
         return stok(list(v[1]))
+    if k == "n":
+        return "n"
+    if k == "d":
+        return "d" + dbl_bits(v[1])
     if k == "L":
         return "L[" + ",".join(ref_show(x) for x in v[1]) + "]"
     return "M{" + ",".join(ref_show(a) + ":" + ref_show(b) for a, b in v[1]) + "}"
@@ -337,7 +443,7 @@ def ref_show(v) -> str:
 def ref_type(v):
     """a structural type; None for 'any' (empty containers)"""
     k = v[0]
-    if k in "iubs":
+    if k in "iubsdn":
         return k
     if k == "L":
         t = None
@@ -356,6 +462,10 @@ def ref_unify(a, b):
         return b
     if b is None:
         return a
+    if a == "n":            # null is a member of every (nullable / dyn) element type: JSON-like data
+        return b
+    if b == "n":
+        return a
     if isinstance(a, str) or isinstance(b, str):
         if a != b:
             raise Unspec("heterogeneous")
@@ -370,12 +480,26 @@ def ref_same_type(a, b):
 
 
 def ref_eq(a, b) -> bool:
+    """CEL equality of two values of one type.  Doubles compare as IEEE-754 (NaN equals nothing, itself
+    included; -0.0 == 0.0), whatever object carries them.  null equals null; null against a value of another
+    kind is left unspecified (heterogeneous equality)."""
     ref_same_type(a, b)
+    if a[0] != b[0]:
+        raise Unspec("null against a value")
     if a[0] == "M":
-        da, db = dict(a[1]), dict(b[1])
-        return da.keys() == db.keys() and all(ref_eq(da[k], db[k]) for k in da)
+        da, db = dict(a[1]), dict(b[1])          # keys are int/uint/bool/string: plain equality
+        if da.keys() != db.keys():
+            return False
+        return all([ref_eq(da[k], db[k]) for k in da])
     if a[0] == "L":
-        return len(a[1]) == len(b[1]) and all(ref_eq(x, y) for x, y in zip(a[1], b[1]))
+        if len(a[1]) != len(b[1]):
+            return False
+        return all([ref_eq(x, y) for x, y in zip(a[1], b[1])])
+    if a[0] == "n":
+        return True
+    if a[0] == "d":
+        x, y = float(a[1]), float(b[1])
+        return (x == y) and not (x != x) and not (y != y)
     return a[1] == b[1]
 
 
@@ -383,9 +507,12 @@ class Ref:
     def __init__(self):
         self.has_operand_error = False      # a has(e.f) whose operand e is itself an evaluation error
 
-    def outcome(self, e) -> Optional[str]:
+    def outcome(self, e, bind=None) -> Optional[str]:
         try:
-            return ref_show(self.ev(e, {}))
+            env = {}
+            for x, t in bind or []:
+                env[x] = self.ev(t, {})
+            return ref_show(self.ev(e, env))
         except RefErr:
             return "err"
         except Unspec:
@@ -410,6 +537,10 @@ class Ref:
             return ("b", bool(e[1]))
         if k == "s":
             return ("s", tuple(e[1]))
+        if k == "n":
+            return ("n",)
+        if k == "d":
+            return ("d", float(e[1]))
         if k == "v":
             if e[1] not in env:
                 raise Unspec("unbound")
@@ -481,6 +612,8 @@ class Ref:
             return ("i", len(c[1]))
         if k == "neg":
             a = self.ev(e[1], env)
+            if a[0] == "d":
+                return ("d", -a[1])
             if a[0] != "i":
                 raise Unspec("neg")
             return self.rng_int(-a[1])
@@ -511,6 +644,8 @@ class Ref:
             return r
         if k in ("+", "-", "*", "/", "%"):
             a, b = self.ev(e[1], env), self.ev(e[2], env)
+            if a[0] == "d" and b[0] == "d" and k != "%":
+                return ("d", ieee_arith(k, a[1], b[1]))
             if a[0] != b[0] or a[0] not in "iu":
                 raise Unspec("arithmetic")
             x, y = a[1], b[1]
@@ -537,7 +672,7 @@ class Ref:
             return ("b", r if k == "==" else not r)
         if k in ("<", "<=", ">", ">="):
             a, b = self.ev(e[1], env), self.ev(e[2], env)
-            if a[0] != b[0] or a[0] not in "iubs":
+            if a[0] != b[0] or a[0] not in "iubsd":
                 raise Unspec("ordering")
             x, y = a[1], b[1]
             return ("b", {"<": x < y, "<=": x <= y, ">": x > y, ">=": x >= y}[k])
@@ -551,7 +686,7 @@ class Ref:
                 raise Unspec("in")
             for y in items:
                 ref_same_type(x, y)
-            return ("b", any(ref_eq(x, y) for y in items))
+            return ("b", any([ref_eq(x, y) for y in items]))
         if k in SFNS:
             a, b = self.ev(e[1], env), self.ev(e[2], env)
             if a[0] != "s" or b[0] != "s":
@@ -621,6 +756,23 @@ class Ref:
         raise RefErr()
 
 
+def ieee_arith(k: str, x: float, y: float) -> float:
+    """IEEE-754 binary64 + - * / (no exceptions: overflow is an infinity, x/0 an infinity or NaN)"""
+    import math
+    if k == "+":
+        return x + y
+    if k == "-":
+        return x - y
+    if k == "*":
+        return x * y
+    if y == 0.0:
+        if x != x or x == 0.0:
+            return math.nan
+        neg = (math.copysign(1.0, x) < 0) != (math.copysign(1.0, y) < 0)
+        return -math.inf if neg else math.inf
+    return x / y
+
+
 def ref_search(r, s: List[int]) -> bool:
     """Python's backtracking `re` (not RE2, not the Lean matcher) on the same fragment; text anchors."""
     return pyre.search(re_text(r, py=True), "".join(map(chr, s))) is not None
@@ -630,19 +782,30 @@ def ref_search(r, s: List[int]) -> bool:
 # generator
 # ----------------------------------------------------------------------------------------------
 
-SCALARS = [("i",), ("u",), ("b",), ("s",)]
+SCALARS = [("i",), ("u",), ("b",), ("s",)]          # the kinds that can be map keys
+VALS = SCALARS + [("d",), ("n",)]                    # element / value kinds (round 2: double, null)
+VAL_W = [3, 2, 2, 3, 2, 1]
+
+
+def bindv(env, x, t):
+    """env extended by x : t — an earlier entry of the same name is hidden"""
+    return [(v, vt) for v, vt in env if v != x] + [(x, t)]
 
 
 class Gen:
     def __init__(self, rng: random.Random):
         self.rng = rng
         self.nvar = 0
+        self.shadow = 0.15          # probability that a macro variable reuses a name that is in scope
+
+    def val(self):
+        return self.rng.choices(VALS, VAL_W)[0]
 
     # ---- types
     def gtype(self, depth: int):
         r = self.rng
         if depth <= 0 or r.random() < 0.45:
-            return r.choice(SCALARS)
+            return self.val()
         if r.random() < 0.6:
             return ("L", self.gtype(depth - 1))
         return ("M", r.choice(SCALARS), self.gtype(depth - 1))
@@ -672,6 +835,10 @@ class Gen:
             return ["b", r.random() < 0.5]
         if k == "s":
             return ["s", self.gstr()]
+        if k == "d":
+            return ["d", r.choice(DBL_LITS) if r.random() < 0.8 else r.choice(DBL_SPECIAL)]
+        if k == "n":
+            return ["n"]
         if k == "L":
             return ["L", [self.lit(t[1], depth - 1) for _ in range(r.randint(0, 4))]]
         n = r.randint(0, 3)
@@ -685,7 +852,9 @@ class Gen:
         else:
             vals = r.sample(range(0, 6), n)
             keys = [[t[1][0], v] for v in vals]
-        return ["M", [[kk, self.lit(t[2], depth - 1)] for kk in keys]]
+        # JSON-like data: a present key may be bound to null
+        nullable = r.random() < 0.25
+        return ["M", [[kk, (["n"] if nullable and r.random() < 0.5 else self.lit(t[2], depth - 1))] for kk in keys]]
 
     # ---- expressions of a given type
     def expr(self, t, depth, env):
@@ -703,6 +872,8 @@ class Gen:
             opts += [("rel", 3), ("in", 3), ("has", 2), ("sfn", 3), ("matches", 2), ("quant", 5), ("logic", 2), ("not", 1)]
         elif k == "s":
             opts += [("concat", 3)]
+        elif k == "d":
+            opts += [("arith", 2), ("neg", 1)]
         elif k == "L":
             opts += [("mapmac", 4), ("filter", 4), ("concat", 2), ("listlit", 2)]
         elif k == "M":
@@ -725,7 +896,7 @@ class Gen:
             m = self.expr(("M", ("s",), t), d, env)
             return ["sel", self.field_for(m), m]
         if ch == "arith":
-            op = r.choice(["+", "-", "*", "/", "%"])
+            op = r.choice(["+", "-", "*", "/", "%"] if k != "d" else ["+", "-", "*", "/"])
             return [op, self.expr(t, d, env), self.expr(t, d, env)]
         if ch == "size":
             ct = r.choice([("s",), ("L", self.gtype(1)), ("M", r.choice(SCALARS), self.gtype(1))])
@@ -733,16 +904,20 @@ class Gen:
         if ch == "neg":
             return ["neg", self.expr(t, d, env)]
         if ch == "rel":
-            st = r.choice(SCALARS) if r.random() < 0.75 else self.gtype(2)
-            op = r.choice(["==", "!=", "<", "<=", ">", ">="]) if st[0] in "iubs" else r.choice(["==", "!="])
+            st = self.val() if r.random() < 0.75 else self.gtype(2)
+            op = r.choice(["==", "!=", "<", "<=", ">", ">="]) if st[0] in "iubsd" else r.choice(["==", "!="])
             return [op, self.expr(st, d, env), self.expr(st, d, env)]
         if ch == "in":
-            st = r.choice(SCALARS) if r.random() < 0.8 else self.gtype(1)
+            st = self.val() if r.random() < 0.8 else self.gtype(1)
             if r.random() < 0.7 or st[0] not in "iubs":
                 c = self.expr(("L", st), d, env)
             else:
                 c = self.expr(("M", st, self.gtype(1)), d, env)
-            return ["in", self.expr(st, d, env), c]
+            item = self.expr(st, d, env)
+            if c[0] == "L" and r.random() < 0.3:           # the item itself (the same sub-expression) is an element
+                c = ["L", c[1] + [item]]
+                r.shuffle(c[1])
+            return ["in", item, c]
         if ch == "has":
             m = self.expr(("M", ("s",), self.gtype(1)), d, env)
             return ["has", self.field_for(m), m]
@@ -766,7 +941,7 @@ class Gen:
             mk = r.choice(["all", "exists", "exists_one"])
             rng_e, et = self.range_expr(d, env)
             x = self.fresh(env)
-            return [mk, x, rng_e, self.expr(("b",), d, env + [(x, et)])]
+            return [mk, x, rng_e, self.expr(("b",), d, bindv(env, x, et))]
         if ch == "logic":
             return [r.choice(["&&", "||"]), self.expr(t, d, env), self.expr(t, d, env)]
         if ch == "not":
@@ -776,7 +951,7 @@ class Gen:
         if ch == "mapmac":
             rng_e, et = self.range_expr(d, env)
             x = self.fresh(env)
-            return ["map", x, rng_e, self.expr(t[1], d, env + [(x, et)])]
+            return ["map", x, rng_e, self.expr(t[1], d, bindv(env, x, et))]
         if ch == "filter":
             if r.random() < 0.8:
                 rng_e = self.expr(t, d, env)
@@ -786,7 +961,7 @@ class Gen:
                     return self.leaf(t, env)
                 rng_e, et = self.expr(("M", t[1], self.gtype(1)), d, env), t[1]
             x = self.fresh(env)
-            return ["filter", x, rng_e, self.expr(("b",), d, env + [(x, et)])]
+            return ["filter", x, rng_e, self.expr(("b",), d, bindv(env, x, et))]
         if ch == "listlit":
             return ["L", [self.expr(t[1], d, env) for _ in range(r.randint(0, 3))]]
         if ch == "maplit":
@@ -799,7 +974,7 @@ class Gen:
 
     def fresh(self, env):
         r = self.rng
-        if env and r.random() < 0.15:
+        if env and r.random() < self.shadow:
             return r.choice(env)[0]            # shadow an outer variable
         self.nvar += 1
         return self.nvar % 7
@@ -813,7 +988,7 @@ class Gen:
 
     def range_expr(self, d, env):
         r = self.rng
-        et = r.choice(SCALARS) if r.random() < 0.8 else self.gtype(1)
+        et = self.val() if r.random() < 0.8 else self.gtype(1)
         if r.random() < 0.8 or et[0] not in "iubs":
             return self.expr(("L", et), d, env), et
         return self.expr(("M", et, self.gtype(1)), d, env), et
@@ -881,7 +1056,7 @@ def law_cases(g: Gen) -> List[Any]:
     """closed instances of the laws named in the property, over generated lists/strings"""
     r = g.rng
     out = []
-    et = r.choice(SCALARS)
+    et = g.val()
     l = g.lit(("L", et), 2)
     x = g.lit(et, 1) if (not l[1] or r.random() < 0.4) else list(r.choice(l[1]))
     out.append(["==", ["in", x, l], ["exists", 1, l, ["==", ["v", 1], x]]])              # x in l  iff  l.exists(y, y == x)
@@ -996,6 +1171,193 @@ def outer_variable_cases(g: "Gen") -> List[Any]:
     return r.sample(out, 5)
 
 
+def S(txt: str):
+    return ["s", [ord(c) for c in txt]]
+
+
+def shadow_cases(g: "Gen") -> List[Tuple[Any, Any]]:
+    """(bindings, expression): one NAME bound at two levels.  The innermost binding wins inside the macro body and
+    the outer one is visible again after the inner macro: (a) a macro variable named like a variable of the
+    evaluation context, (b) a nested macro that reuses the name of the enclosing macro's variable."""
+    r = g.rng
+    vals = r.sample(range(-2, 7), r.randint(2, 3))
+    l = ["L", [["i", v] for v in vals]]
+    inner = r.sample(range(10, 20), r.randint(2, 3))
+    m = ["L", [["i", v] for v in inner]]
+    x = r.randint(0, 6)
+    X = ["v", x]
+    c = ["i", r.choice(inner)]
+    v0 = ["i", vals[0]]
+    out: List[Tuple[Any, Any]] = []
+    # (a) the context binds the same name (any kind of value: the macro variable hides it)
+    outer = r.choice([["i", 100], ["i", r.choice(vals)], ["i", r.choice(inner)], S("a"), ["L", [["i", 5]]], ["n"], ["d", "nan"], ["b", True]])
+    bind = [[x, outer]]
+    a_cases = [
+        ["map", x, l, ["+", X, ["i", 1]]],
+        ["filter", x, l, [">", X, v0]],
+        ["all", x, l, ["<=", X, ["i", max(vals)]]],
+        ["exists", x, l, ["==", X, ["i", vals[-1]]]],
+        ["exists_one", x, l, ["==", X, v0]],
+        ["map", x, ["M", [[["i", v], ["b", True]] for v in vals]], ["*", X, ["i", 2]]],
+    ]
+    if outer[0] == "i":                       # … and the context value is what the name means outside the macro
+        a_cases.append(["+", ["idx", ["map", x, l, ["+", X, ["i", 1]]], ["i", 0]], X])
+        a_cases.append(["L", [X, ["size", ["filter", x, l, [">=", X, v0]]], X]])
+    if outer[0] == "L":
+        a_cases.append(["map", x, X, ["+", X, ["i", 1]]])      # the range is evaluated outside the new scope
+    out += [(bind, e) for e in r.sample(a_cases, 4)]
+    # (b) nested macros with one name
+    b_cases = [
+        ["map", x, l, ["map", x, m, X]],
+        ["map", x, l, ["filter", x, m, [">", X, c]]],
+        ["map", x, l, ["L", [["exists", x, m, ["==", X, c]], ["==", X, v0]]]],
+        ["filter", x, l, ["&&", ["all", x, m, [">=", X, ["i", 10]]], [">", X, v0]]],
+        ["map", x, l, ["+", ["size", ["filter", x, m, [">", X, c]]], X]],
+        ["exists_one", x, l, ["&&", ["exists_one", x, m, ["==", X, c]], ["==", X, v0]]],
+        ["map", x, l, ["map", x, m, ["map", x, ["L", [X]], ["*", X, ["i", 2]]]]],
+        ["map", x, l, ["map", x, ["L", [X, ["+", X, ["i", 1]]]], ["*", X, ["i", 10]]]],
+        ["all", x, l, ["exists", x, m, [">", X, ["i", 9]]]],
+        ["filter", x, l, ["exists", x, l, ["==", X, v0]]],
+    ]
+    for e in r.sample(b_cases, 4):
+        out.append((bind if r.random() < 0.3 else None, e))
+    return out
+
+
+def identity_cases(g: "Gen") -> List[Tuple[Any, Any]]:
+    """(bindings, expression): ONE value reaches both sides of `in` / `==` (a variable used twice, an element taken
+    from the list it is tested against, a macro variable ranging over the list).  Equality is decided by the
+    VALUES: a double NaN equals nothing, itself included, so it is `in` no list; every other double is found."""
+    r = g.rng
+    xv = "nan" if r.random() < 0.65 else r.choice(DBL_LITS + ["inf", "-inf"])
+    others = [r.choice(DBL_LITS) for _ in range(r.randint(0, 3))]
+    j = r.randint(0, len(others))
+    elems = others[:j] + [xv] + others[j:]
+    ids = r.sample(range(0, 7), 4)
+    x, lv, mv, e = ids
+    X, L, M, Ev = ["v", x], ["v", lv], ["v", mv], ["v", e]
+    bind = [[x, ["d", xv]], [lv, ["L", [["d", t] for t in elems]]],
+            [mv, ["M", [[S("a"), ["d", xv]], [S("b"), ["d", "1.5"]]]]]]
+    J = ["i", j]
+    Ma = ["sel", [97], M]
+    cases = [
+        ["in", X, ["L", [X]]],
+        ["in", X, L],
+        ["in", ["idx", L, J], L],
+        ["==", ["idx", L, J], ["idx", L, J]],
+        ["==", L, L],
+        ["==", ["L", [X]], ["L", [X]]],
+        ["==", X, X],
+        ["!=", X, X],
+        ["exists", e, L, ["in", Ev, L]],
+        ["all", e, L, ["in", Ev, L]],
+        ["filter", e, L, ["in", Ev, L]],
+        ["map", e, L, ["in", Ev, ["L", [Ev]]]],
+        ["exists_one", e, L, ["in", Ev, ["L", [Ev]]]],
+        ["all", e, L, ["==", Ev, Ev]],
+        ["==", M, M],
+        ["==", Ma, Ma],
+        ["in", Ma, ["L", [Ma]]],
+        ["in", ["L", [X]], ["L", [["L", [X]]]]],
+        ["in", M, ["L", [M]]],
+        ["==", ["in", X, L], ["exists", e, L, ["==", Ev, X]]],              # the law of the property
+        ["==", ["in", ["idx", L, J], L], ["exists", e, L, ["==", Ev, ["idx", L, J]]]],
+        ["in", X, ["++", L, ["L", [X]]]],
+        ["in", X, ["filter", e, L, ["b", True]]],
+        ["in", ["idx", ["map", e, L, Ev], J], L],
+    ]
+    out = [(bind, c) for c in r.sample(cases, 9)]
+    # closed programs: the macro variable is one object on both sides
+    D = ["d", xv]
+    closed = [
+        ["exists", e, ["L", [D]], ["in", Ev, ["L", [Ev]]]],
+        ["filter", e, ["L", [["d", "1.5"], D]], ["in", Ev, ["L", [Ev, ["d", "2.0"]]]]],
+        ["all", e, ["L", [D]], ["==", Ev, Ev]],
+        ["map", e, ["L", [D, ["d", "0.0"]]], ["in", Ev, ["L", [["d", "-0.0"], Ev]]]],
+    ]
+    out += [(None, c) for c in r.sample(closed, 2)]
+    return out
+
+
+def null_cases(g: "Gen") -> List[Tuple[Any, Any, bool]]:
+    """(bindings, expression, as-JSON): null is an ordinary value — bound to a present key, held by a list, produced
+    by a macro body or a branch; a present key with a null value is PRESENT (select / index / has / in)."""
+    r = g.rng
+    names = r.sample(FIELDS, r.randint(1, 3))
+    other = r.choice([["i", 0], ["i", 7], S("v"), ["b", False], ["L", []], ["n"]])
+    nullpos = r.randrange(len(names))
+    pairs = [[S(nm), (["n"] if i == nullpos or r.random() < 0.3 else other)] for i, nm in enumerate(names)]
+    mlit = ["M", pairs]
+    nm = names[nullpos]
+    f = [ord(c) for c in nm]
+    x, y = r.sample(range(0, 7), 2)
+    bound = r.random() < 0.5
+    m = ["v", x] if bound else mlit
+    bind = [[x, mlit]] if bound else None
+    as_json = bound and r.random() < 0.5
+    Y = ["v", y]
+    cases = [
+        ["sel", f, m],
+        ["has", f, m],
+        ["idx", m, S(nm)],
+        ["in", S(nm), m],
+        ["==", ["sel", f, m], ["n"]],
+        ["!=", ["sel", f, m], ["n"]],
+        ["==", ["has", f, m], ["in", S(nm), m]],
+        ["==", ["sel", f, m], ["idx", m, S(nm)]],
+        ["size", m],
+        ["map", y, ["L", [m]], ["sel", f, Y]],
+        ["filter", y, ["L", [m, m]], ["has", f, Y]],
+        ["exists", y, ["L", [m]], ["==", ["sel", f, Y], ["n"]]],
+        ["map", y, m, ["has", f, m]] if not bound else ["map", y, m, ["idx", m, Y]],
+        ["L", [["sel", f, m]]],
+        ["M", [[S("r"), ["sel", f, m]]]],
+        ["?:", ["has", f, m], ["sel", f, m], ["n"]],
+        ["sel", f, ["sel", [113], ["M", [[S("q"), m]]]]],
+        ["has", f, ["sel", [113], ["M", [[S("q"), m]]]]],
+        ["in", ["sel", f, m], ["L", [["n"]]]],
+    ]
+    kk = r.choice([["i", 1], ["u", 2], ["b", True], S("z")])
+    nl = ["L", [["n"]] * r.randint(1, 3)]
+    more = [
+        ["idx", ["M", [[kk, ["n"]]]], kk],
+        ["in", kk, ["M", [[kk, ["n"]]]]],
+        ["idx", nl, ["i", 0]],
+        ["in", ["n"], nl],
+        ["size", nl],
+        ["map", y, nl, Y],
+        ["filter", y, nl, ["==", Y, ["n"]]],
+        ["exists_one", y, nl, ["==", Y, ["n"]]],
+        ["all", y, nl, ["==", Y, ["n"]]],
+        ["map", y, ["L", [["i", 1], ["i", 2]]], ["n"]],
+        ["++", nl, nl],
+        ["==", nl, nl],
+        ["==", ["M", [[kk, ["n"]]]], ["M", [[kk, ["n"]]]]],
+    ]
+    out = [(bind, c, as_json) for c in r.sample(cases, 7)]
+    out += [(None, c, False) for c in r.sample(more, 4)]
+    return out
+
+
+def bound_expr(g: "Gen", rng) -> Tuple[Any, Any]:
+    """a random well-typed program over 1-3 variables supplied by the evaluation context; macro variables reuse the
+    names in scope often"""
+    bind, env = [], []
+    for x in rng.sample(range(0, 7), rng.randint(1, 3)):
+        t = g.gtype(rng.randint(0, 2))
+        bind.append([x, g.lit(t, 2)])
+        env.append((x, t))
+    old = g.shadow
+    g.shadow = 0.4
+    try:
+        # prefer a result type that can use the variables
+        t = g.gtype(2) if rng.random() < 0.5 else rng.choice([("b",), ("L", env[0][1]), env[0][1]])
+        e = g.expr(t, rng.randint(1, 4), env)
+    finally:
+        g.shadow = old
+    return bind, e
+
+
 def _rename(e, a, b):
     if not isinstance(e, list):
         return e
@@ -1007,6 +1369,22 @@ def _rename(e, a, b):
 
 
 # ----------------------------------------------------------------------------------------------
+
+MODEL_EXT = True         # the Lean model knows null, doubles and context bindings
+
+
+def uses_ext(c) -> bool:
+    if c.get("bind"):
+        return True
+    return any(n[0] in ("d", "n") for n, _ in walk(c["e"]))
+
+
+def show_bind(c) -> str:
+    if not c.get("bind"):
+        return ""
+    return " with " + ", ".join(f"x{x} = {to_cel(t)}" + (" (the one NaN object)" if '"nan"' in _json.dumps(t) else "")
+                                for x, t in c["bind"]) + (" (via json_to_cel)" if c.get("json") else "")
+
 
 C09_OPS = set(MACROS) | {"idx", "sel", "has", "size", "msize", "in", "++", "M", "matches"} | set(SFNS)
 
@@ -1050,6 +1428,23 @@ class C09(Prop):
             for e in error_position_cases(g) + outer_variable_cases(g):
                 for rn in ("I", "C"):
                     cases.append({"kind": "expr", "runner": rn, "e": e})
+        # round 2: variables supplied by the evaluation context, names bound at two levels, one object on both
+        # sides of a comparison, null as an ordinary value
+        def add(bind, e, as_json=False):
+            for rn in ("I", "C"):
+                c = {"kind": "expr", "runner": rn, "e": e}
+                if bind:
+                    c["bind"] = bind
+                if as_json:
+                    c["json"] = True
+                cases.append(c)
+        for i in range(110 if quick else 3000):
+            add(*bound_expr(g, rng))
+        for i in range(8 if quick else 200):
+            for b, e in shadow_cases(g) + identity_cases(g):
+                add(b, e)
+            for b, e, js in null_cases(g):
+                add(b, e, js)
         for i in range(1000 if quick else 40000):
             cases.append({"kind": "re", "re": g.regex(rng.randint(1, 4)), "s": g.restr()})
         for i in range(60 if quick else 2000):
@@ -1083,7 +1478,7 @@ class C09(Prop):
             src = to_cel(c["e"])
         except RecursionError:
             return "EXC RecursionError"
-        return run_cel(src, c["runner"])
+        return run_cel(src, c["runner"], c.get("bind"), bool(c.get("json")))
 
     # ---- model
     def model_line(self, c):
@@ -1091,6 +1486,11 @@ class C09(Prop):
             if c["re"][0] == "bad":
                 return None
             return f"re {stok(c['s'])} {re_tokens(c['re'])}"
+        if not MODEL_EXT and uses_ext(c):
+            return None
+        if c.get("bind"):
+            env = "".join(f" {x} {to_model(t)}" for x, t in c["bind"])
+            return f"{c['runner']} env {len(c['bind'])}{env} {to_model(c['e'])}"
         return f"{c['runner']} {to_model(c['e'])}"
 
     def model_expect(self, c, m):
@@ -1105,21 +1505,21 @@ class C09(Prop):
             if out != exp:
                 return f"matches({re_text(c['re'])!r}, {''.join(map(chr, c['s']))!r}) gave {out}; reference matcher says {exp}"
             return None
-        exp = Ref().outcome(c["e"])
+        exp = Ref().outcome(c["e"], c.get("bind"))
         if exp is None:
             return None
         if exp == "err":
             if out == "err" or out.startswith("EXC "):
                 return None
-            return f"runner {c['runner']}: {to_cel(c['e'])!r} gave the value {out}; the CEL definition prescribes an evaluation error"
+            return f"runner {c['runner']}: {to_cel(c['e'])!r}{show_bind(c)} gave the value {out}; the CEL definition prescribes an evaluation error"
         if out != exp:
-            return f"runner {c['runner']}: {to_cel(c['e'])!r} gave {out}; reference semantics give {exp}"
+            return f"runner {c['runner']}: {to_cel(c['e'])!r}{show_bind(c)} gave {out}; reference semantics give {exp}"
         return None
 
     def nontrivial(self, c, out):
         if c["kind"] == "re":
             return c["re"][0] not in ("c", "eps", "bad")
-        if Ref().outcome(c["e"]) is None:
+        if Ref().outcome(c["e"], c.get("bind")) is None:
             return False
         return any(n[0] in C09_OPS for n, _ in walk(c["e"]))
 
@@ -1133,7 +1533,7 @@ def has_operand_error(c) -> bool:
     if c.get("kind") != "expr":
         return False
     r = Ref()
-    r.outcome(c["e"])
+    r.outcome(c["e"], c.get("bind"))
     return r.has_operand_error
 
 
